@@ -16,7 +16,9 @@
 //! so a replay never overwrites the file of the full run) and prints one JSON line on stdout.
 //! A case is reproducible from (seed, index): one `rng.fork()` per case index.
 //!
-//! Verdicts per case line: `OK`, `OK known_difference contracts_empty_code_only_in_oracle(<runs>)`
+//! Verdicts per case line: `OK` (a bundle that differs from revm's only by the missing
+//! `contracts[KECCAK_EMPTY]` entry is a MISMATCH of class contracts_keys, counted additionally as
+//! contracts_empty_code_only_in_oracle: regression of the incarnation_db.rs:171 repair)
 //! (the only difference is that the oracle's `bundle.contracts` holds KECCAK_EMPTY -> empty code and
 //! grevm's does not; counted separately in the JSON, see `cmp_contracts`), or
 //! `MISMATCH <run> [class] <first difference of every differing section> || <next run> ...`.
@@ -318,7 +320,7 @@ fn cmp_contracts(exp: &BundleState, act: &BundleState) -> Result<(), String> {
         let only_o: Vec<_> = ec.difference(&ac).collect();
         let only_g: Vec<_> = ac.difference(&ec).collect();
         if only_g.is_empty() && only_o.len() == 1 && **only_o[0] == KECCAK_EMPTY {
-            // KNOWN DIFFERENCE (not part of C08/C09): stock revm keeps `code: Some(empty)` on an
+            // Formerly tolerated, now a MISMATCH (see `run_case`): stock revm keeps `code: Some(empty)` on an
             // account it materialised earlier in the block, so the merged transition registers
             // contracts[KECCAK_EMPTY] = empty bytecode; grevm's multi-version memory hands later
             // transactions `code: None`, and when the last writer never loads the code (e.g. the
@@ -486,8 +488,8 @@ fn cmp_sizes(exp: &BundleState, act: &BundleState) -> Result<(), String> {
 /// another); the message lists the first difference of each differing section, each prefixed by
 /// its `[class]`.
 ///
-/// `Ok(true)` means: identical except for the single known `bundle.contracts` difference
-/// (`KNOWN_EMPTY_CODE`), which is counted separately and is not a MISMATCH on its own.
+/// `Ok(true)` means: identical except for the single `bundle.contracts` KECCAK_EMPTY difference
+/// (`KNOWN_EMPTY_CODE`), which the caller counts separately and reports as a MISMATCH.
 fn cmp_run(exp: &RunOutput, act: &RunOutput) -> Result<bool, String> {
     let diffs: Vec<String> = [
         cmp_outcomes(&exp.0, &act.0),
@@ -1582,7 +1584,15 @@ fn run_case(case: &Case, delay_seeds: [u64; 2], stats: &mut Stats) -> String {
         let tag = if force { label.clone() } else { format!("{label} delay_seed={seed}") };
         match res {
             Ok(false) => {}
-            Ok(true) => known.push(label.clone()),
+            Ok(true) => {
+                // since the repair of incarnation_db.rs:171 (code-less accounts keep their `code`
+                // field in the Basic entry) this is a regression: `BundleState::contracts` must be
+                // identical to revm's. Counted separately, reported as a MISMATCH.
+                known.push(label.clone());
+                problems.push(format!(
+                    "{tag} [contracts_keys] contracts_empty_code_only_in_oracle: bundle.contracts keys: only-oracle [KECCAK_EMPTY -> empty bytecode] only-grevm []"
+                ));
+            }
             Err(e) => {
                 hung = e.starts_with("[hang]");
                 problems.push(format!("{tag} {e}"));
@@ -1601,8 +1611,6 @@ fn run_case(case: &Case, delay_seeds: [u64; 2], stats: &mut Stats) -> String {
     }
     if !problems.is_empty() {
         format!("MISMATCH {}", problems.join(" || "))
-    } else if !known.is_empty() {
-        format!("OK known_difference contracts_empty_code_only_in_oracle({})", known.join(","))
     } else {
         "OK".to_owned()
     }
